@@ -1,11 +1,12 @@
 """C04 - electron-repulsion integrals exact in both index conventions."""
 import itertools
+import os
 
 import numpy as np
 from hypothesis import strategies as st
 
 from vf import gen
-from vf.core import Verdict, lib, maxdev, mk_basis, mk_shell, nfunc, sh
+from vf.core import Verdict, case_hash, lib, maxdev, mk_basis, mk_shell, nfunc, sh
 from vf.ref import r2, r3
 from vf.run import SubCheck
 
@@ -31,7 +32,7 @@ def schwarz(sa, sb):
     return np.sqrt(np.abs(np.einsum("manbmanb->manb", g)))
 
 
-def judge_block(v, shells4, label=None):
+def judge_block(v, shells4, label=None, sample=False):
     R = [r3.ShellRef(d, ctype="cartesian") for d in shells4]
     cont = [mk_shell(d) for d in shells4]
     got = lib(ElectronRepulsionIntegral.construct_array_contraction, *cont)
@@ -45,6 +46,14 @@ def judge_block(v, shells4, label=None):
     scale = q1[:, :, :, :, None, None, None, None] * q2[None, None, None, None, :, :, :, :]
     d, at = maxdev(gotn, want, scale + FLOOR / TOL)
     v.info["schwarz_dev"] = max(v.info.get("schwarz_dev", 0.0), d)
+    if sample:
+        at2 = tuple(int(x) for x in np.unravel_index(int(np.argmax(np.abs(want))), want.shape))
+        ex2 = r2.eri_element_mp(R, at2[0::2], at2[1::2])
+        od = abs(want[at2] - ex2) / (scale[at2] + FLOOR / TOL)
+        v.info["oracle_vs_mp"] = max(v.info.get("oracle_vs_mp", 0.0), od)
+        v.classes.append("arbitrated-sample")
+        if od > 1e-9:
+            raise RuntimeError(f"float oracle R2 disagrees with its 40-digit instantiation by {od:.3e} (oracle defect, not a finding)")
     if not d <= TOL:
         exact = r2.eri_element_mp(R, at[0::2], at[1::2])
         d2 = abs(gotn[at] - exact) / (scale[at] + FLOOR / TOL)
@@ -83,7 +92,8 @@ def judge_quartet(case):
     v.nontrivial = sum(ls) > 0 and (not coinc or sum(ls) >= 2)
     if ls[2] + ls[3] >= 2:
         v.classes.append("ket-l>=2")
-    judge_block(v, shells)
+    h = int(case_hash(case), 16)
+    judge_block(v, shells, sample=h % (4 if os.environ.get("VERIF_TIER") == "thorough" else 24) == 0 and sum(ls) <= 8)
     return v
 
 
@@ -196,7 +206,7 @@ def ill_list():
 
 def judge_ill(case):
     v = Verdict(nontrivial=True, classes=["tight-diffuse"])
-    judge_block(v, case["shells"], label=case["label"].replace(" ", "_"))
+    judge_block(v, case["shells"], label=case["label"].replace(" ", "_"), sample=int(case_hash(case), 16) % 16 == 0)
     return v
 
 
